@@ -18,6 +18,8 @@ class Number(Token):
             self.value = int(value.removesuffix("."))
         else:
             self.value = float(value)
+            if self.value.is_integer():
+                self.value = int(self.value)
 
         return self.value
 
